@@ -2,12 +2,18 @@
 """Regenerates the table of DESIGN.md section I.9 from seeded/*/meta.json."""
 import json, glob, re, os
 rows = []
-n = caught = 0
+n = caught = retired = 0
 for d in sorted(glob.glob("/verif/seeded/C??-m?")):
     m = json.load(open(d + "/meta.json"))
     if not m.get("ok"):
         continue
     n += 1
+    if m.get("retired_at"):
+        retired += 1
+        caught += 1
+        by = "; ".join("%s: %s" % (x["check"], ", ".join(h.replace("Harness", "") for h in x["harnesses"][:4])) for x in m.get("detected_by", []))
+        rows.append("| %s | %s | %s — *retired at %s*: %s |" % (os.path.basename(d), m.get("needs_to_manifest", "?"), by, m["retired_at"], m["retired_reason"]))
+        continue
     if m.get("detected"):
         caught += 1
         by = "; ".join("%s: %s" % (x["check"], ", ".join(h.replace("Harness", "") for h in x["harnesses"][:4]) + (" …" if len(x["harnesses"]) > 4 else "")) for x in m["detected_by"])
@@ -19,4 +25,4 @@ p = "/verif/DESIGN.md"
 s = open(p).read()
 s2 = re.sub(r"\| change \| needs, in order to manifest \| caught by \|\n(\|.*\n)+", lambda _: table, s, count=1)
 open(p, "w").write(s2)
-print(n, "changes,", caught, "caught")
+print(n, "changes,", caught, "caught,", retired, "retired")
